@@ -14,7 +14,7 @@ from pydbml.classes import (Column, Enum, EnumItem, Expression, Index, Note, Pro
 from pydbml.database import Database  # noqa: E402
 from harness.observe import StickyNote  # noqa: E402
 
-IDS = ['id', 'user_id', 'name', 'created_at', 'a', 'b1', 'Order', 'code', 'country', 'qty', 'ref_id', 'k9']
+IDS = ['id', 'user_id', 'name', 'created_at', 'a', 'b1', 'Order', 'code', 'country', 'qty', 'ref_id', 'k9', 'ID', 'Id', 'Name', 'CODE']
 IDS_QUOTED = ['select', 'table', 'note', 'ref', 'x y', 'ü', 'col-1', 'as', 'indexes', 'Enum', 'null', '1st']
 IDS_WILD = ['q"uote', "it's", 'br{ace}', 'back\\slash', 'a.b', '{}', '{0}', 'semi;colon', '--dash', 'per%cent', 'x,y']
 TYPES = ['int', 'varchar(255)', 'decimal(10, 2)', 'timestamp', 'text[]', 'jsonb', 'bigint', 'varchar', 'schema1.udt']
@@ -238,6 +238,7 @@ def mk_default(d):
 def build(spec, **db_kwargs):
     """Build the real object graph through the public classes. Returns (db, handles)."""
     db = Database(allow_properties=spec.get('allow_properties', False), **db_kwargs)
+    shared_notes = {}
     enums = []
     for e in spec['enums']:
         obj = Enum(e['name'], [EnumItem(i['name'], note=i['note'] or None, comment=i.get('comment'))
@@ -253,10 +254,17 @@ def build(spec, **db_kwargs):
             typ = c['type']
             if isinstance(typ, dict):
                 typ = enums[typ['enum']] if 'enum' in typ else Enum(typ['name'], [], schema=typ['schema'])
-            tb.add_column(Column(c['name'], typ, unique=c['unique'], not_null=c['not_null'], pk=c['pk'],
-                                 autoinc=c['autoinc'], default=mk_default(c['default']),
-                                 note=c['note'] or None, comment=c.get('comment'),
-                                 properties=dict(map(tuple, c['props'])) if c['props'] else None))
+            # one Note OBJECT may be handed to several columns (the text is what counts, not whose note it was last)
+            col = Column(c['name'], typ, unique=c['unique'], not_null=c['not_null'], pk=c['pk'],
+                         autoinc=c['autoinc'], default=mk_default(c['default']),
+                         note=c['note'] or None, comment=c.get('comment'),
+                         properties=dict(map(tuple, c['props'])) if c['props'] else None)
+            if c['note']:
+                if c['note'] in shared_notes and (len(c['note']) + len(t['columns'])) % 2 == 0:
+                    col.note = shared_notes[c['note']]       # assigned after construction: the very same object
+                else:
+                    shared_notes.setdefault(c['note'], col.note)
+            tb.add_column(col)
         for ix in t['indexes']:
             subs = []
             for s in ix['subjects']:
